@@ -286,7 +286,8 @@ PROPS = {
         'theorems': ['Cqos.C07.tinv_step', 'Cqos.C07.tinv_run', 'Cqos.C07.c07_v2_only_then', 'Cqos.C07.c07_v1_graceful_only_then',
                      'Cqos.C07.stopped_false_v2', 'Cqos.C07.c07_no_error_calc', 'Cqos.C07.c07_no_error_recalc',
                      'Cqos.C15.c15_drain_progress'],
-        'runs': [{'cmd': 'stepper', 'args': ['-family', 'terminate']}, {'cmd': 'stepper', 'args': ['-family', 'mixed']}],
+        'runs': [{'cmd': 'stepper', 'args': ['-family', 'terminate']}, {'cmd': 'stepper', 'args': ['-family', 'mixed']},
+                 {'cmd': 'stepper', 'args': ['-family', 'dynamic']}],
         'monitor_prefix': ['C07', 'C02 the discipline terminated normally'],
         'level': 'proof',
         'level_text': ('Lean theorems for every action list and divider: a terminated v2 discipline has every registered input '
